@@ -20,7 +20,7 @@ TARGET = os.environ.get("VERIF_TARGET") or os.path.join(ROOT, "target")
 OUT = os.environ.get("VERIF_OUT") or ROOT   # evidence/ and replays/ live here (scratch dir when evaluating seeded changes)
 DRIVER_MEM_MB = int(os.environ.get("VERIF_DRIVER_MEM_MB", "6144"))
 NWORKERS = int(os.environ.get("VERIF_WORKERS", "16"))
-FIXED_ENV = {"JAWK_VF_A": "alpha", "JAWK_VF_E": "", "JAWK_VF_U": "\u00fc\u00f1\u00ed"}
+FIXED_ENV = {"JAWK_VF_A": "alpha", "JAWK_VF_E": "", "JAWK_VF_U": "\u00fc\u00f1\u00ed", "JAWK_VF_L1": "caf\udce9"}
 
 
 # --------------------------------------------------------------------------
